@@ -186,3 +186,86 @@ Proof.
   intros H. destruct (builder_count_spec s H) as (n & Hn & Hv & Hb). exists n. split; [exact Hv|].
   rewrite Hb. exact (int_index_python n i Hn).
 Qed.
+
+(* ---- one operation object used for several nodes: every handle carries the count AFTER its own wiring ---- *)
+Lemma add_op_obj_spec o ws : use_wf (kind_of o) ws = true ->
+  exists o' n, add_op_obj o ws = Ok (o', n) /\ kind_of o' = kind_of o /\
+               use_outputs (kind_of o) ws = Some n /\ 0 <= n.
+Proof.
+  unfold use_wf. intros H. apply andb_prop in H. destruct H as [H Hu]. apply andb_prop in H. destruct H as [Hw Hk].
+  destruct o as [t|t|t|b|m]; cbn [kind_of] in *.
+  - destruct ws as [|[|k|a b] [|w2 r]]; try discriminate Hu.
+    cbn in Hw. exists (OUnpack (Some k)), k. repeat split; try reflexivity.
+    rewrite andb_true_r in Hw. apply Z.leb_le in Hw. exact Hw.
+  - destruct ws as [|[|k|a b] r]; try discriminate Hu.
+    cbn [use_outputs] in *. destruct (Z.of_nat (length r) =? a); [|discriminate Hu].
+    exists (OCallInd (Some b)), b. repeat split; try reflexivity.
+    cbn in Hw. apply andb_prop in Hw. destruct Hw as [Hw _]. apply andb_prop in Hw. destruct Hw as [_ Hb].
+    apply Z.leb_le in Hb. exact Hb.
+  - exists (OMake (Some (Z.of_nat (length ws)))), 1. repeat split; try reflexivity. lia.
+  - destruct ws as [|w [|w2 r]]; try discriminate Hu.
+    exists (ONoop true), 1. repeat split; try reflexivity. lia.
+  - exists (OFixed m), m. repeat split; try reflexivity. apply Z.leb_le in Hk. exact Hk.
+Qed.
+Theorem reuse_counts_spec : forall uses o,
+  Forall (fun ws => use_wf (kind_of o) ws = true) uses ->
+  exists ns, reuse_counts o uses = Ok ns /\
+             Forall2 (fun ws n => use_outputs (kind_of o) ws = Some n /\ 0 <= n) uses ns.
+Proof.
+  induction uses as [|ws r IH]; intros o H.
+  - exists []. split; [reflexivity|constructor].
+  - inversion H as [|x l Hws Hr]; subst.
+    destruct (add_op_obj_spec o ws Hws) as (o' & n & Ha & Hk & Hu & Hn).
+    rewrite <- Hk in Hr. destruct (IH o' Hr) as (ns & Hns & Hall).
+    exists (n :: ns). split.
+    + cbn [reuse_counts]. rewrite Ha. cbn [bind]. rewrite Hns. reflexivity.
+    + constructor; [split; assumption|]. rewrite <- Hk. exact Hall.
+Qed.
+Lemma Forall2_nth_l {A B} (P : A -> B -> Prop) l1 l2 : Forall2 P l1 l2 ->
+  forall j a, nth_error l1 j = Some a -> exists b, nth_error l2 j = Some b /\ P a b.
+Proof.
+  induction 1 as [|x y l1 l2 Hxy _ IH]; intros j a Hj.
+  - destruct j; discriminate.
+  - destruct j as [|j]; cbn in *.
+    + injection Hj as <-. exists y. split; [reflexivity|exact Hxy].
+    + exact (IH j a Hj).
+Qed.
+Theorem reused_op_handle_count o uses j ws :
+  Forall (fun ws => use_wf (kind_of o) ws = true) uses -> nth_error uses j = Some ws ->
+  exists n, 0 <= n /\ use_outputs (kind_of o) ws = Some n /\ reuse_count o uses j = Some n.
+Proof.
+  intros H Hj. destruct (reuse_counts_spec uses o H) as (ns & Hns & Hall).
+  destruct (Forall2_nth_l _ _ _ Hall j ws Hj) as (n & Hn & Hu & H0).
+  exists n. split; [exact H0|split; [exact Hu|]]. unfold reuse_count. rewrite Hns. exact Hn.
+Qed.
+Theorem reused_op_handle_iter o uses j ws :
+  Forall (fun ws => use_wf (kind_of o) ws = true) uses -> nth_error uses j = Some ws ->
+  exists n, use_outputs (kind_of o) ws = Some n /\
+            iter_node (reuse_count o uses j) = Ok (map Z.of_nat (seq 0 (Z.to_nat n))).
+Proof.
+  intros H Hj. destruct (reused_op_handle_count o uses j ws H Hj) as (n & Hn & Hu & Hc).
+  exists n. split; [exact Hu|]. rewrite Hc. exact (iter_in_order n Hn).
+Qed.
+Theorem reused_op_handle_index o uses j ws i :
+  Forall (fun ws => use_wf (kind_of o) ws = true) uses -> nth_error uses j = Some ws ->
+  exists n, use_outputs (kind_of o) ws = Some n /\ index_int (reuse_count o uses j) i = py_index n i.
+Proof.
+  intros H Hj. destruct (reused_op_handle_count o uses j ws H Hj) as (n & Hn & Hu & Hc).
+  exists n. split; [exact Hu|]. rewrite Hc. exact (int_index_python n i Hn).
+Qed.
+(* the state the object was constructed in / left in by earlier uses does not matter *)
+Corollary reused_op_count_history_free o1 o2 pre1 pre2 ws :
+  kind_of o1 = kind_of o2 ->
+  Forall (fun ws => use_wf (kind_of o1) ws = true) (pre1 ++ [ws]) ->
+  Forall (fun ws => use_wf (kind_of o2) ws = true) (pre2 ++ [ws]) ->
+  reuse_count o1 (pre1 ++ [ws]) (length pre1) = reuse_count o2 (pre2 ++ [ws]) (length pre2).
+Proof.
+  intros Hk H1 H2.
+  assert (E1 : nth_error (pre1 ++ [ws]) (length pre1) = Some ws)
+    by (rewrite nth_error_app2, Nat.sub_diag by lia; reflexivity).
+  assert (E2 : nth_error (pre2 ++ [ws]) (length pre2) = Some ws)
+    by (rewrite nth_error_app2, Nat.sub_diag by lia; reflexivity).
+  destruct (reused_op_handle_count _ _ _ _ H1 E1) as (n1 & _ & Hu1 & Hc1).
+  destruct (reused_op_handle_count _ _ _ _ H2 E2) as (n2 & _ & Hu2 & Hc2).
+  rewrite Hc1, Hc2. rewrite Hk in Hu1. congruence.
+Qed.
